@@ -126,6 +126,45 @@ def _acc_column_guard(ctx):
            f"MAX_BLOWUP_FACTOR={max_blowup} (C14_acc_z_index_spec_gen; C14_acc_z_index_min16_refuted: trace 8, ce blowup 32, 12 threads)")
 
 
+def _fragment_coverage(ctx, info):
+    """Coverage of the fragmented constraint evaluation (evaluator/default.rs: num_fragments = next_power_of_two(pool size) when
+    the ce domain has >= 8192 rows, fragment k starts at row k * ce/num_fragments): every per-row lookup must use the GLOBAL row
+    `fragment.offset() + i`.  A fragment-local index is invisible unless the looked-up table is longer than a fragment
+    (C14_periodic_local_index_ok / _wrong), so for EVERY pool size with more than one fragment the kernel set (run under every
+    pool size 1..64) must contain, for both evaluation paths (main-only / main+aux), a member whose periodic table
+    (max cycle * ce blowup) is longer than a fragment and which has boundary constraints (their x / divisor lookups also depend on
+    the global row), i.e. whose periodic values, transition and boundary evaluations all happen at a non-zero fragment offset."""
+    members = []
+    for l in info:
+        m = re.match(r"evaluator\.(.*) trace_length=(\d+) ce_domain_size=(\d+) ce_blowup=(\d+) max_cycle=(\d+) cycles=\[(.*?)\] assertions=(\d+) aux=(\d+)", l)
+        if m:
+            members.append({"id": m.group(1), "n": int(m.group(2)), "ce": int(m.group(3)), "ceb": int(m.group(4)), "max_cycle": int(m.group(5)),
+                            "cycles": [int(x) for x in m.group(6).split(",") if x.strip()], "assertions": int(m.group(7)), "aux": int(m.group(8))})
+    missing = []
+    table = {}
+    for T in range(1, 65):
+        nf_rule = 1 << (T - 1).bit_length()          # usize::next_power_of_two
+        for path in ("main", "full"):
+            hit = []
+            for mb in members:
+                if (mb["aux"] > 0) != (path == "full") or mb["ce"] < 8192:
+                    continue
+                frag = mb["ce"] // nf_rule
+                if frag < 16:                          # MIN_FRAGMENT_SIZE assertion: outside the guarantee
+                    continue
+                if nf_rule > 1 and mb["max_cycle"] * mb["ceb"] > frag and mb["assertions"] >= 1:
+                    hit.append(mb["id"])
+            if nf_rule > 1 and not hit:
+                missing.append(f"T={T}:{path}")
+            table[f"T={T}:{path}"] = len(hit)
+    single = [mb["id"] for mb in members if mb["ce"] < 8192]
+    all_cycles = sorted(set(c for mb in members for c in mb["cycles"]))
+    ctx.notes["fragment_coverage"] = {"members": members, "single_fragment_members": single, "cycle_lengths": all_cycles,
+                                      "pool_sizes_with_a_sensitive_member(main,full)": [sum(1 for k, v in table.items() if v and k.endswith(p)) for p in ("main", "full")]}
+    ctx.ob("coverage:fragment-offset-sensitive-member-for-every-pool-size", bool(members) and not missing and bool(single),
+           f"no member with a periodic table longer than a fragment (+ boundary constraints) for {missing[:8]}; members={len(members)} single-fragment={single}")
+
+
 def _falsify(ctx, hb, tag, budget, env):
     rc, out, _ = vcheck.sh([hb, "falsify", str(ctx.seed), str(budget)], timeout=1500, env=env)
     nfail, summary = 0, ""
@@ -220,8 +259,9 @@ def run(ctx):
 
     # ------------------------------------------------------------------ cheap kernels under EVERY pool size 1..64
     rc, out, _ = vcheck.sh([ser, "kernels", str(ctx.seed)], timeout=600)
-    kref, _, _ = _parse(out)
+    kref, kinfo, _ = _parse(out)
     ctx.ob("kernels:reference-run", rc == 0 and len(kref) > 50, f"rc={rc} lines={len(kref)}")
+    _fragment_coverage(ctx, kinfo)
     kbad = 0
     for T in range(1, 65):
         rc, out, _ = vcheck.sh([conc, "kernels", str(ctx.seed)], timeout=600, env={"RAYON_NUM_THREADS": str(T)})
